@@ -738,8 +738,11 @@ func (ar *asyncRunner) start(nArgs int) {
 	ar.promiseCap = r.newPromiseCapability(r.getPromise())
 	sp := r.vm.sp
 	ar.gen.enter()
+	entered := false
+	defer ar.gen.dropMarkerOnPanic(&entered)
 	ar.vmCall(r.vm, nArgs)
 	res, resType, ex := ar.gen.step()
+	entered = true
 	ar.step(res, resType == resultNormal, ex)
 	if ex != nil {
 		r.vm.sp = sp - nArgs - 2
@@ -794,6 +797,17 @@ func (g *generator) enterNextFinallyFrame() (canContinue bool) {
 		vm.popTryFrame()
 	}
 	return
+}
+
+// dropMarkerOnPanic is deferred right after enter(): if the activation is left by a panic before step() has
+// taken over (a stack overflow in vmCall's pushCtx), the marker try frame pushed by enter() must not stay on
+// the try stack, where it would stop the handleThrow() of the enclosing frame (see step()).
+func (g *generator) dropMarkerOnPanic(entered *bool) {
+	if !*entered {
+		if l := int(g.tryStackLen) - 1; l >= 0 && l < len(g.vm.tryStack) {
+			g.vm.tryStack = g.vm.tryStack[:l]
+		}
+	}
 }
 
 func (g *generator) step() (res Value, resultType resultType, ex *Exception) {
@@ -917,9 +931,12 @@ func (g *generatorObject) init(vmCall func(*vm, int), nArgs int) {
 	g.gen.vm = vm
 
 	g.gen.enter()
+	entered := false
+	defer g.gen.dropMarkerOnPanic(&entered)
 	vmCall(vm, nArgs)
 
 	_, _, ex := g.gen.step()
+	entered = true
 
 	vm.popTryFrame()
 	if ex != nil {
